@@ -47,7 +47,9 @@ from bounded._c05_geom import (
 RULE = ("layout: every multiset of 1..4 areas (protocluster-derived candidate clusters and "
         "subregions) whose end points lie on a grid of 8 positions of an 80-base ring (all arcs "
         "incl. origin-spanning and the whole record for <= 2 areas, arcs of <= 5 cells for 3 and "
-        "<= 3 cells for 4 areas) and of a line (arcs of <= 4 cells, <= 3 areas); non-trivial = at "
+        "<= 3 cells for 4 areas) and of a line (arcs of <= 4 cells, <= 3 areas), plus every ring "
+        "layout of one origin-spanning area of 2..6 cells with four of 12 short areas (contact "
+        "across the origin with >= 3 sections); non-trivial = at "
         "least 2 areas of which at least two share a base, or an origin-spanning area; "
         "history: every legal sequence of <= 4 operations add_protocluster / add_subregion / "
         "create_candidate_clusters / create_regions / clear_* from three initial states over a "
@@ -118,6 +120,19 @@ def _layouts(tier: str) -> Iterable[Dict[str, Any]]:
             for pattern in _kind_patterns(count, tier):
                 yield {"fn": "layout", "L": LENGTH, "circ": circular,
                        "areas": [[kind, list(arc)] for kind, arc in zip(pattern, combo)]}
+    # contact across the origin with three or more sections: one origin-spanning area of 2..6
+    # cells and four short areas anywhere (inside it, overlapping either of its ends, touching it
+    # without a shared base, apart), so that the sweep leaves up to five sections of which
+    # several meet the first one only through the origin-spanning area
+    spanning = [[a * CELL, b * CELL] for a in (4, 5, 6, 7) for b in (1, 2)]
+    short = [[c * CELL, (c + 1) * CELL] for c in range(CELLS)] + \
+            [[c * CELL, (c + 2) * CELL] for c in (1, 2, 3, 5)]
+    for wide in spanning:
+        for combo in itertools.combinations(short, 4):
+            for pattern in (("sssss", "cscsc") if quick else ("sssss", "cscsc", "scscs", "ccccc")):
+                arcs = [wide] + [list(arc) for arc in combo]
+                yield {"fn": "layout", "L": LENGTH, "circ": True,
+                       "areas": [[kind, arc] for kind, arc in zip(pattern, arcs)]}
 
 
 HISTORY_POOLS = [
@@ -682,8 +697,9 @@ def _model_areas(case: Dict[str, Any], exact: bool) -> List[List[int]]:
 
 
 def _model_regions(case: Dict[str, Any], exact: bool) -> Tuple[bool, List[List[int]], List[int], List[List[int]]]:
-    """Model of the PINNED Record.create_regions (sorted sweep that merges consecutive areas
-    sharing a base with the running span, one first/last fix-up, a region per section) on a ring,
+    """Model of Record.create_regions as it is in /repo (sorted sweep that merges consecutive areas
+    sharing a base with the running span, then every later section that shares a base with the
+    first one is merged into it, a region per section) on a ring,
     with `connect_locations` either as pinned or exact.  Returns (raises 'regions cannot overlap',
     sections as lists of area indices, region masks, area arcs).  Used ONLY to delimit the
     known-finding classes, never as an oracle."""
@@ -708,30 +724,20 @@ def _model_regions(case: Dict[str, Any], exact: bool) -> Tuple[bool, List[List[i
             sections.append((current, members))
             current, members = mask, [index]
     sections.append((current, members))
-    if len(sections) > 1 and sections[0][0] & sections[-1][0]:
-        last = sections.pop()
-        sections[0] = (sections[0][0] | last[0], sections[0][1] + [i for i in last[1] if i not in sections[0][1]])
+    merged = True
+    while merged and len(sections) > 1:            # every later section sharing a base with the first
+        merged = False
+        for position in range(len(sections) - 1, 0, -1):
+            if sections[0][0] & sections[position][0]:
+                other = sections.pop(position)
+                span = _pinned_connect([_mask_to_arc(sections[0][0], length), _mask_to_arc(other[0], length)],
+                                       length, exact)
+                sections[0] = (span, sections[0][1] + [i for i in other[1] if i not in sections[0][1]])
+                merged = True
     region_masks = [_pinned_connect([arcs[i] for i in group], length, exact) for _, group in sections]
     raises = any(region_masks[a] & region_masks[b]
                  for a in range(len(region_masks)) for b in range(a + 1, len(region_masks)))
     return raises, [sorted(group) for _, group in sections], region_masks, arcs
-
-
-def _is_f1(clause: str, case: Dict[str, Any]) -> bool:
-    """creation-succeeds on a ring where the single first/last fix-up of the sweep is not enough:
-    an origin-spanning area shares a base with an area that the sorted sweep has put into a
-    middle section (even with exact spans the sections left by the sweep model still overlap)."""
-    if _plain(clause) != "creation-succeeds" or case.get("fn") != "layout" or not case["circ"]:
-        return False
-    if not any(spans_origin(arc) for _, arc in case["areas"]):
-        return False
-    if _model_regions(case, exact=True)[0]:
-        return True
-    # beyond the exhaustive bound (sampled layouts of 5..7 areas) candidate formation's own
-    # defects (C05-F1..F8) change which candidate clusters exist and the sweep model is no longer
-    # exact: fall back to the plain input feature (an origin-spanning area and no inflated span -
-    # the latter is C06-F2)
-    return len(case["areas"]) > 4 and not _some_span_inflated(case)
 
 
 def _some_span_inflated(case: Dict[str, Any]) -> bool:
@@ -764,7 +770,7 @@ def _is_f2(clause: str, case: Dict[str, Any]) -> bool:
     another component (regions-are-components) or collides with another region
     (creation-succeeds).  Delimited by the sweep model with the pinned connect_locations."""
     clause = _plain(clause)
-    if case.get("fn") != "layout" or not case["circ"] or _is_f1(clause, case):
+    if case.get("fn") != "layout" or not case["circ"]:
         return False
     if clause not in ("creation-succeeds", "region-span-exact", "regions-are-components"):
         return False
@@ -774,9 +780,7 @@ def _is_f2(clause: str, case: Dict[str, Any]) -> bool:
         return True       # (> 4 areas: sampled layouts, where the sweep model below is not exact)
     raises, sections, region_masks, arcs = _model_regions(case, exact=False)
     if raises:
-        # the inflated span reaches an area of another component: the pinned sweep then fails
-        # in add_region; a sweep that merges every overlapping section (the C06-F1 repair)
-        # swallows that area instead
+        # an inflated region span reaches the region of another component
         return clause in ("creation-succeeds", "regions-are-components")
     if clause == "creation-succeeds":
         return False
@@ -794,7 +798,8 @@ def _is_f2(clause: str, case: Dict[str, Any]) -> bool:
     return sorted(sections) != sorted(components(len(arcs), pairs))
 
 
+# C06-F1 (single first/last fix-up of the sweep) is repaired in /repo and has no class any more:
+# a recurrence is reported as an unclassified failure.
 FINDING_CLASSES = {
-    "C06-F1": _is_f1,
     "C06-F2": _is_f2,
 }
